@@ -18,6 +18,7 @@ mod idx_props;
 mod merge_props;
 mod path_props;
 mod refs_props;
+mod table_props;
 mod wc_props;
 
 fn main() {
@@ -39,6 +40,7 @@ fn main() {
             "c05" => conflict_props::c05(&case),
             "c12" => refs_props::c12(&case),
             "c20" => idx_props::c20(&case),
+            "c21" => table_props::c21(&case),
             "c26" => wc_props::c26(&case),
             "c30" => matcher_props::c30(&case),
             "c31" => fileset_props::c31(&case),
